@@ -3,6 +3,7 @@ package checks
 import (
 	"fmt"
 	"strings"
+	"sync"
 	"time"
 
 	"github.com/sdcio/cache/proto/cachepb"
@@ -21,6 +22,8 @@ import (
 type probeCheck struct {
 	id string
 	h  *hist
+	// slowRead: one store read of every re-submission of this case is answered 2.5 s late (C09)
+	slowRead bool
 }
 
 func init() {
@@ -125,6 +128,10 @@ func (c *probeCheck) RunCase(w *core.Worker, idx int, seed uint64, res *core.Cas
 	if c.id == "C09" && idx%7 == 6 {
 		c.h.gnmiWire = []string{"proto", "json", "json_ietf"}[(idx/7)%3]
 		poolName += " gnmi-wire=" + c.h.gnmiWire
+	}
+	c.slowRead = c.id == "C09" && idx%9 == 8
+	if c.slowRead {
+		poolName += " slow-read"
 	}
 	// every 8th case: intents with hundreds of entries
 	c.h.bulk = 0
@@ -532,7 +539,27 @@ func (c *probeCheck) resubmitProbe(run *histRun, rng *core.Rng) bool {
 	before := run.snap()
 	id := run.nextID() + "re"
 	run.ds.Dev.CaptureViews = true
+	if c.slowRead {
+		// a store that answers one of the reads of this transaction late (a loaded or remote cache); late is not absent
+		k, n := 1+run.rng.Intn(6), 0
+		var mu sync.Mutex
+		run.fc.Before = func(cc fixture.CacheCall) error {
+			if cc.Method == "Modify" {
+				return nil
+			}
+			mu.Lock()
+			n++
+			hit := n == k
+			mu.Unlock()
+			if hit {
+				run.res.Count("slow_reads_injected", 1)
+				time.Sleep(2500 * time.Millisecond)
+			}
+			return nil
+		}
+	}
 	out := run.set(id, step, nil, time.Minute, false)
+	run.fc.Before = nil
 	run.ds.Dev.CaptureViews = false
 	run.canon = append(run.canon, "RESUBMIT "+stepString(step))
 	if out.convErr != nil || out.panicked || out.err != nil || out.rejected {
